@@ -2470,6 +2470,8 @@ class Convex:
         cond2 = not sp.issparse(other)
         if cond1 and cond2:
             raise TypeError('The expression is not supported.')
+        if isinstance(other, (Vars, Affine)) and other.model is not self.model:
+            raise ValueError('Models mismatch.')
 
         affine_in = self.affine_in
         affine_out = self.affine_out + other
@@ -3533,6 +3535,8 @@ class DecVar(Vars):
     def evtadapt(self, scens):
 
         if isinstance(scens, Scen):
+            if scens.ambset.model is not self.dro_model:
+                raise ValueError('Models mismatch.')
             events = scens.series
         else:
             events = scens
@@ -4184,6 +4188,8 @@ class DecAffine(Affine):
                 raise ValueError('The expression of x must be a scalar')
 
         if isinstance(x, (DecVar, DecVarSub, DecAffine)):
+            if self.model is not x.model:
+                raise ValueError('Models mismatch.')
             event_adapt = comb_set(event_adapt, x.event_adapt)
 
         if isinstance(z, (DecVar, DecVarSub)):
@@ -4194,6 +4200,8 @@ class DecAffine(Affine):
                 raise ValueError('The expression of z must be a scalar')
 
         if isinstance(z, (DecVar, DecVarSub, DecAffine)):
+            if self.model is not z.model:
+                raise ValueError('Models mismatch.')
             event_adapt = comb_set(event_adapt, z.event_adapt)
 
         return DecExpConstr(ExpConstr(self.model, x, self, z), event_adapt)
@@ -4949,6 +4957,10 @@ class DecLinConstr(LinConstr):
         return '{}{}{} constraint{}{}'.format(size, event, expr, suffix, ctype)
 
     def forall(self, ambset):
+
+        if not isinstance(ambset, (LinConstr, Bounds, CvxConstr, Iterable)):
+            if self.model.top is not ambset.model:
+                raise ValueError('Models mismatch.')
 
         self.ambset = ambset
 
